@@ -163,6 +163,8 @@ structure Child where
   toks   : List String
   j      : Json
   kind   : Kind
+  /-- a null entry a resolver is called on (`isEmpty()`) -/
+  empty  : Bool := false
 
 def notExt (n : String) : Bool := !(n.startsWith "x-")
 
@@ -206,10 +208,11 @@ def Call.name : Call → String
 /-- the statements after the `$ref` block, as far as they concern child positions -/
 inductive Pos
   | call (c : Call) (path : List String)        -- a resolver / helper called on the position at `path`
-  | each (path : List String) (body : List Pos) -- `for … range`: `path` leads to the loop elements
+  /-- `for … range`: `path` leads to the loop elements; `skipNil`: the body begins with `if <element> == nil { continue }` -/
+  | each (skipNil : Bool) (path : List String) (body : List Pos)
   | guard                                        -- a `return` of a new error
 
-def eachCall (path : List String) (k : Kind) : Pos := .each path [.call (.res k) []]
+def eachCall (path : List String) (k : Kind) : Pos := .each false path [.call (.res k) []]
 
 def schemaPos : List Pos :=
   [.call (.res .schema) ["items"], eachCall ["properties", "*"] .schema, .call (.res .schema) ["additionalProperties"],
@@ -222,12 +225,12 @@ def responsePos : List Pos := [eachCall ["headers", "*"] .header, .call .content
 def callbackPos : List Pos := [eachCall ["~"] .pathItem]
 def pathItemPos : List Pos :=
   [eachCall ["parameters", "#"] .parameter,
-   .each ["{op}"] [eachCall ["parameters", "#"] .parameter, .call (.res .requestBody) ["requestBody"],
+   .each false ["{op}"] [eachCall ["parameters", "#"] .parameter, .call (.res .requestBody) ["requestBody"],
                    eachCall ["responses", "~"] .response, eachCall ["callbacks", "*"] .callback]]
 /-- `resolveContentRefs`: per media type its examples, its schema, then the headers of each of its encodings -/
 def contentPos : List Pos :=
-  [.each ["*"] [.call .examples ["examples"], .call (.res .schema) ["schema"],
-                .each ["encoding", "*"] [eachCall ["headers", "*"] .header]]]
+  [.each true ["*"] [.call .examples ["examples"], .call (.res .schema) ["schema"],
+                     .each true ["encoding", "*"] [eachCall ["headers", "*"] .header]]]
 /-- `resolveExampleRefs` -/
 def examplesPos : List Pos := [eachCall ["*"] .example]
 /-- `ResolveRefsIn` -/
@@ -236,7 +239,7 @@ def documentPos : List Pos :=
    eachCall ["components", "requestBodies", "*"] .requestBody, eachCall ["components", "responses", "*"] .response,
    eachCall ["components", "schemas", "*"] .schema, eachCall ["components", "securitySchemes", "*"] .securityScheme,
    eachCall ["components", "examples", "*"] .example, eachCall ["components", "callbacks", "*"] .callback,
-   eachCall ["components", "links", "*"] .link, eachCall ["paths", "~"] .pathItem]
+   eachCall ["components", "links", "*"] .link, .each true ["paths", "~"] [.call (.res .pathItem) []]]
 
 def positions : Kind → List Pos
   | .schema => schemaPos | .header => headerPos | .parameter => parameterPos | .requestBody => requestBodyPos
@@ -244,12 +247,14 @@ def positions : Kind → List Pos
   | .securityScheme => [] | .example => [] | .link => []
 
 mutual
-/-- the children a position tree yields on a JSON value (`leaf` says what a call yields) -/
-def Pos.run (leaf : Call → Json → List String → List Child) : Pos → Json → List String → List Child
-  | .call c path, j, pre => (walkPath path j pre).flatMap (fun (p, v) => leaf c v p)
-  | .each path body, j, pre => (walkPath path j pre).flatMap (fun (p, v) => Pos.runList leaf body v p)
+/-- the children a position tree yields on a JSON value (`leaf c elem v p`: what a call yields; `elem`: the call is
+    on the loop element itself — a single field is tested against nil before the call, an element is not) -/
+def Pos.run (leaf : Call → Bool → Json → List String → List Child) : Pos → Json → List String → List Child
+  | .call c path, j, pre => (walkPath path j pre).flatMap (fun (p, v) => leaf c path.isEmpty v p)
+  | .each skipNil path body, j, pre =>
+    ((walkPath path j pre).filter (fun (_, v) => !(skipNil && v.isNull))).flatMap (fun (p, v) => Pos.runList leaf body v p)
   | .guard, _, _ => []
-def Pos.runList (leaf : Call → Json → List String → List Child) : List Pos → Json → List String → List Child
+def Pos.runList (leaf : Call → Bool → Json → List String → List Child) : List Pos → Json → List String → List Child
   | [], _, _ => []
   | p :: ps, j, pre => Pos.run leaf p j pre ++ Pos.runList leaf ps j pre
 end
@@ -258,7 +263,7 @@ mutual
 /-- the token list of the generated table -/
 def Pos.flat : Pos → List (String × String × List String)
   | .call c path => [("call", c.name, path)]
-  | .each path body => ("each", "", path) :: (Pos.flatList body ++ [("end", "", [])])
+  | .each skipNil path body => ("each", if skipNil then "skipNil" else "", path) :: (Pos.flatList body ++ [("end", "", [])])
   | .guard => [("guard", "", [])]
 def Pos.flatList : List Pos → List (String × String × List String)
   | [] => []
@@ -269,7 +274,7 @@ mutual
 /-- the callees in source order (`!error` for a guard): the `calls` column of `Gen.resolverSkeleton` -/
 def Pos.callees : Pos → List String
   | .call c _ => [c.name]
-  | .each _ body => Pos.calleesList body
+  | .each _ _ body => Pos.calleesList body
   | .guard => ["!error"]
 def Pos.calleesList : List Pos → List String
   | [] => []
@@ -280,23 +285,27 @@ mutual
 /-- every full path a tree reaches with a resolver, `{op}` and the helpers expanded (`leaf`) -/
 def Pos.paths (leaf : Call → List String → List (List String × String)) : Pos → List String → List (List String × String)
   | .call c path, pre => leaf c (pre ++ path)
-  | .each path body, pre => Pos.pathsList leaf body (pre ++ path)
+  | .each _ path body, pre => Pos.pathsList leaf body (pre ++ path)
   | .guard, _ => []
 def Pos.pathsList (leaf : Call → List String → List (List String × String)) : List Pos → List String → List (List String × String)
   | [], _ => []
   | p :: ps, pre => Pos.paths leaf p pre ++ Pos.pathsList leaf ps pre
 end
 
-/-- a resolver is handed an object (a null or scalar entry is not a reference-capable object) -/
-def leaf0 : Call → Json → List String → List Child
-  | .res k, v, p => if isObj v then [⟨p, v, k⟩] else []
-  | _, _, _ => []
-def leaf1 : Call → Json → List String → List Child
-  | .examples, v, p => Pos.runList leaf0 examplesPos v p
-  | c, v, p => leaf0 c v p
-def leaf2 : Call → Json → List String → List Child
-  | .content, v, p => Pos.runList leaf1 contentPos v p
-  | c, v, p => leaf1 c v p
+/-- a resolver is handed an object, or — as a loop element — a null entry (`isEmpty()`: the sentinel `errMUST…`) -/
+def leaf0 : Call → Bool → Json → List String → List Child
+  | .res k, elem, v, p =>
+    if isObj v then [⟨p, v, k, false⟩]
+    -- a null entry: a nil wrapper (`isEmpty()`); for a path item of a callback the decoder makes an empty path item
+    else if elem && v.isNull then [⟨p, v, k, k != .pathItem⟩]
+    else []
+  | _, _, _, _ => []
+def leaf1 : Call → Bool → Json → List String → List Child
+  | .examples, _, v, p => Pos.runList leaf0 examplesPos v p
+  | c, e, v, p => leaf0 c e v p
+def leaf2 : Call → Bool → Json → List String → List Child
+  | .content, _, v, p => Pos.runList leaf1 contentPos v p
+  | c, e, v, p => leaf1 c e v p
 
 /-- children of a VALUE of kind `k`, in the order the resolver of that kind visits them -/
 def children (k : Kind) (j : Json) : List Child := Pos.runList leaf2 (positions k) j []
@@ -354,7 +363,7 @@ def docRefPositions : List (List String × Kind) :=
    (["components", "securitySchemes", "*"], .securityScheme), (["paths", "~"], .pathItem)]
 
 def atPositions (ps : List (List String × Kind)) (j : Json) : List Child :=
-  ps.flatMap (fun (path, k) => (walkPath path j []).filterMap (fun (p, v) => if isObj v then some ⟨p, v, k⟩ else none))
+  ps.flatMap (fun (path, k) => (walkPath path j []).filterMap (fun (p, v) => if isObj v then some ⟨p, v, k, false⟩ else none))
 
 /-- the reference-capable objects directly below a value of kind `k` (by type, in no particular order) -/
 def specChildren (k : Kind) (j : Json) : List Child := atPositions (refPositions k) j
@@ -381,6 +390,7 @@ structure CNode where
   typed   : Bool              -- a position of the typed document tree of `src`
   nat     : Bool := true      -- exists in a real run (not only in the over-approximating closure over contexts)
   copy    : Bool := false     -- the local copy `resolved` that a resolver makes of a target that is itself a reference
+  empty   : Bool := false     -- a null entry a resolver is called on
 
 def CNode.same (a b : CNode) : Bool := a.cx == b.cx && a.src == b.src && a.ptr == b.ptr && a.kind == b.kind && a.copy == b.copy
 
@@ -392,16 +402,16 @@ def ridOf (k : Kind) (j : Json) (ptr : List String) : String :=
     | .ok (.str s) => s
     | _ => "?"
 
-def enum : Nat → Cx → String → List String → Kind → Json → Bool → List CNode
-  | 0, _, _, _, _, _, _ => []
-  | f + 1, cx, src, ptr, k, j, typed =>
-    let r := refOf j
-    let cs := if r.isSome then [] else children k j
-    let extra := if r.isSome then [] else (specChildren k j).filter (fun c => !cs.any (fun d => d.toks == c.toks && d.kind == c.kind))
+def enum : Nat → Cx → String → List String → Kind → Json → Bool → Bool → List CNode
+  | 0, _, _, _, _, _, _, _ => []
+  | f + 1, cx, src, ptr, k, j, typed, empty =>
+    let r := if empty then none else refOf j
+    let cs := if r.isSome || empty then [] else children k j
+    let extra := if r.isSome || empty then [] else (specChildren k j).filter (fun c => !cs.any (fun d => d.toks == c.toks && d.kind == c.kind))
     { cx := cx, src := src, ptr := ptr, kind := k, ref := r, rid := ridOf k j ptr, j := j,
       kids := cs.map (fun c => (ptr ++ c.toks, c.kind)),
-      skipped := extra.map (fun c => (ptr ++ c.toks, c.kind)), typed := typed } ::
-    (cs ++ extra).flatMap (fun c => enum f cx src (ptr ++ c.toks) c.kind c.j typed)
+      skipped := extra.map (fun c => (ptr ++ c.toks, c.kind)), typed := typed, empty := empty } ::
+    (cs ++ extra).flatMap (fun c => enum f cx src (ptr ++ c.toks) c.kind c.j typed c.empty)
 
 /-- the top-level positions of a document: walked ones first, then those that are reference-capable by type only -/
 def docAll (j : Json) : List Child :=
@@ -409,7 +419,7 @@ def docAll (j : Json) : List Child :=
   cs ++ (specDocChildren j).filter (fun c => !cs.any (fun d => d.toks == c.toks && d.kind == c.kind))
 
 def enumDoc (cx : Cx) (src : String) (j : Json) : List CNode :=
-  (docAll j).flatMap (fun c => enum 64 cx src c.toks c.kind c.j true)
+  (docAll j).flatMap (fun c => enum 64 cx src c.toks c.kind c.j true c.empty)
 
 /-! ### The resolver skeleton the model assumes (compared with the generated table `Gen.resolverSkeleton`) -/
 
@@ -425,15 +435,17 @@ def walksInTargetContext : Kind → Bool
   | _ => false
 
 /-- the statements of a routine's `$ref` block as the model reads them (tokens of the generated table):
-    isEmpty test; value present → return; text in progress → callback (ok-checked assertion: `unvisit` skips
+    isEmpty test; the key of the in-progress set and of the backtrack table is THIS routine's kind plus the text
+    (7245059: an entry under a key is registered by the routine of that kind only, so the ok-check in the
+    callbacks is unreachable and `unvisit` has no kind test); value present → return; key in progress → callback (ok-checked assertion: `unvisit` skips
     values of another kind); visitRef; whole-file branch (decode the element, MOVE documentPath, set the value);
     fragment branch (local copy, resolveComponent, recursive call on the copy — for path items only when the
     copy is a reference —, set the value); deferred unvisitRef LAST (error returns and the swallowed
     errMUST… leave the text in progress) -/
 def skeletonSteps (k : Kind) : List String :=
-  ["empty", "value", "shouldVisit:checked", "visit", "single(", "elem",
-   (if movesDocumentPath k then "load:moves" else "load:stays"), "setValue"] ++
-  (if k = .pathItem then [] else ["setRefPath:moved"]) ++
+  ["empty", "key:own-kind", "value", "shouldVisit:checked", "visit", "single(", "elem",
+   (if movesDocumentPath k then "load:moves" else "load:stays")] ++
+  (if k = .pathItem then ["recurse:ifRef", "setValue"] else ["setValue", "setRefPath:moved"]) ++
   [")", "fragment(", "copy"] ++
   (if walksInTargetContext k then ["component:switch", "recurse:ifRef", "setValue"]
    else ["component:local", "fail", "recurse:swallowEmpty", "setValue", "setRefPath:target"]) ++
@@ -464,6 +476,33 @@ def frozen : List (String × String) :=
    ("unvisitRef", "sha256:823d2cc9b725947c"),
    ("visitRef", "sha256:703f4f7db8bcb99a")]
 
+/-- the exported entry points of the Loader and, in source order, what each does with the per-load state:
+    `reset` = `resetVisitedPathItemRefs()` (unconditionally), `delegate:` = hands over to another entry point,
+    `internal:` = the routine the document goes to. `ResolveRefsIn` (also called for every document loaded on the
+    way) initialises the state only when it was never initialised. -/
+def entryPoints : List (String × List String) :=
+  [("LoadFromData", ["reset", "internal:ResolveRefsIn"]),
+   ("LoadFromDataWithPath", ["reset", "internal:loadFromDataWithPathInternal"]),
+   ("LoadFromFile", ["delegate:LoadFromURI"]),
+   ("LoadFromIoReader", ["delegate:LoadFromData"]),
+   ("LoadFromStdin", ["delegate:LoadFromIoReader"]),
+   ("LoadFromURI", ["reset", "internal:loadFromURIInternal"]),
+   ("ResolveRefsIn", ["resetIfNil"])]
+
+/-- does the entry point `name` begin — itself or through the entry point it delegates to — with the reset, before
+    any document is handed to an internal routine (`Entry.resets` of the model) -/
+def entryResets (tbl : List (String × List String)) : Nat → String → Bool
+  | 0, _ => false
+  | f + 1, name =>
+    match (tbl.find? (·.1 = name)).map (·.2) with
+    | some (first :: _) =>
+      first = "reset" || tbl.any (fun r => first = "delegate:" ++ r.1 && entryResets tbl f r.1)
+    | _ => false
+
+/-- the entry points through which a document is LOADED -/
+def loadEntries : List String :=
+  ["LoadFromData", "LoadFromDataWithPath", "LoadFromFile", "LoadFromIoReader", "LoadFromStdin", "LoadFromURI"]
+
 def routineRow (k : Kind) : String × List String × List String :=
   (goName k, skeletonSteps k, Pos.calleesList (positions k))
 
@@ -474,7 +513,8 @@ def expectedSkeleton : List (String × List String × List String) :=
   [routineRow .callback, ("ContentRefs", [], Pos.calleesList contentPos), ("Document", [], Pos.calleesList documentPos),
    routineRow .example, ("ExampleRefs", [], Pos.calleesList examplesPos), routineRow .header, routineRow .link,
    routineRow .parameter, routineRow .pathItem, routineRow .requestBody, routineRow .response, routineRow .schema,
-   routineRow .securityScheme] ++ frozen.map (fun (n, t) => ("fn:" ++ n, [t], []))
+   routineRow .securityScheme] ++ entryPoints.map (fun (n, st) => ("entry:" ++ n, st, [])) ++
+  frozen.map (fun (n, t) => ("fn:" ++ n, [t], []))
 
 /-- what `Gen.loaderWalked` must be: the position trees as token lists (rows sorted by name) -/
 def expectedWalked : List (String × List (String × String × List String)) :=
